@@ -8,39 +8,39 @@ Open Scope Z_scope.
    validator, getter, default, adapter behaviour, every start state, every history and every fault plan
    at every step (every ordinal k, every exception class, every handler). *)
 Theorem law_holds_on_every_faulted_history :
-  forall vld getter_c fac_value mdef_value adapt_value ydef_value (h : list (op * plan)) (s0 : st) (i : Z),
-    law_hist i s0 (run2 vld getter_c fac_value mdef_value adapt_value ydef_value s0 s0 h) = [].
+  forall vld getter_c fac_value mdef_value adapt_value ydef_value fcalls (h : list (op * plan)) (s0 : st) (i : Z),
+    law_hist i s0 (run2 vld getter_c fac_value mdef_value adapt_value ydef_value fcalls s0 s0 h) = [].
 Proof. exact run2_law. Qed.
 Print Assumptions law_holds_on_every_faulted_history.
 
 (* A deciding callback that raises: no effect at all, no notification, and the caller sees the
-   injected exception or TraitError. *)
+   injected exception or TraitError (NotifierNotFound only for a removal with nothing registered). *)
 Theorem deciding_callback_fault_inert :
-  forall vld getter_c fac_value mdef_value adapt_value ydef_value k e s0 o s1 e' lg,
-    step vld getter_c fac_value mdef_value adapt_value ydef_value (FaultCall k e) s0 o = (s1, Raise e', lg) ->
-    s1 = s0 /\ lg = [] /\ (e' = e \/ e' = TraitError).
+  forall vld getter_c fac_value mdef_value adapt_value ydef_value fcalls k e s0 o s1 e' lg,
+    step vld getter_c fac_value mdef_value adapt_value ydef_value fcalls (FaultCall k e) s0 o = (s1, Raise e', lg) ->
+    s1 = s0 /\ lg = [] /\ (e' = e \/ e' = TraitError \/ e' = NotifierNotFound).
 Proof. exact deciding_fault_inert. Qed.
 Print Assumptions deciding_callback_fault_inert.
 
 (* ... and it does reach the caller whenever the k-th callback invocation happens. *)
 Theorem deciding_callback_fault_reaches_caller :
-  forall vld getter_c fac_value mdef_value adapt_value ydef_value k e s0 o,
-    fired vld getter_c fac_value mdef_value adapt_value ydef_value (FaultCall k e) s0 o = true ->
-    step vld getter_c fac_value mdef_value adapt_value ydef_value (FaultCall k e) s0 o = (s0, Raise e, []).
+  forall vld getter_c fac_value mdef_value adapt_value ydef_value fcalls k e s0 o,
+    fired vld getter_c fac_value mdef_value adapt_value ydef_value fcalls (FaultCall k e) s0 o = true ->
+    step vld getter_c fac_value mdef_value adapt_value ydef_value fcalls (FaultCall k e) s0 o = (s0, Raise e, []).
 Proof. exact deciding_fault_reached_raises. Qed.
 Print Assumptions deciding_callback_fault_reaches_caller.
 
 (* Any operation that raises, for whatever reason and under whatever plan, is inert. *)
 Theorem raising_operation_inert :
-  forall vld getter_c fac_value mdef_value adapt_value ydef_value pl s0 o s1 e lg,
-    step vld getter_c fac_value mdef_value adapt_value ydef_value pl s0 o = (s1, Raise e, lg) -> s1 = s0 /\ lg = [].
+  forall vld getter_c fac_value mdef_value adapt_value ydef_value fcalls pl s0 o s1 e lg,
+    step vld getter_c fac_value mdef_value adapt_value ydef_value fcalls pl s0 o = (s1, Raise e, lg) -> s1 = s0 /\ lg = [].
 Proof. exact step_raise_inert. Qed.
 Print Assumptions raising_operation_inert.
 
 (* A raising change handler: same final state, same outcome, every other handler called as without the fault. *)
 Theorem handler_fault_operation_complete :
-  forall vld getter_c fac_value mdef_value adapt_value ydef_value j e s0 o,
-    let stp := step vld getter_c fac_value mdef_value adapt_value ydef_value in
+  forall vld getter_c fac_value mdef_value adapt_value ydef_value fcalls j e s0 o,
+    let stp := step vld getter_c fac_value mdef_value adapt_value ydef_value fcalls in
     fst (fst (stp (FaultHandler j e) s0 o)) = fst (fst (stp NoFault s0 o)) /\
     snd (fst (stp (FaultHandler j e) s0 o)) = snd (fst (stp NoFault s0 o)) /\
     snd (stp (FaultHandler j e) s0 o) = drop_handler j (snd (stp NoFault s0 o)).
@@ -50,19 +50,23 @@ Print Assumptions handler_fault_operation_complete.
 (* Every subsequent operation behaves as on an object that never saw the failure: along any history the
    faulted object and the twin that skipped the failed operations are in the same state. *)
 Theorem faulted_object_indistinguishable_from_twin :
-  forall vld getter_c fac_value mdef_value adapt_value ydef_value h a o pl fr oa ot,
-    In (o, pl, fr, oa, ot) (run2 vld getter_c fac_value mdef_value adapt_value ydef_value a a h) -> o_st oa = o_st ot.
+  forall vld getter_c fac_value mdef_value adapt_value ydef_value fcalls h a o pl fr oa ot,
+    In (o, pl, fr, oa, ot) (run2 vld getter_c fac_value mdef_value adapt_value ydef_value fcalls a a h) -> o_st oa = o_st ot.
 Proof. exact future_indistinguishable. Qed.
 Print Assumptions faulted_object_indistinguishable_from_twin.
 
 (* Non-vacuity: a history in which faults fire in an item validator (3rd item of an extend), in a dict
    value validator, in the second adapter factory, in a default factory and in a handler. *)
 Example faults_fire :
-  let s0 := mkSt 1 (1, 2) [1; 2] [(1, 1)] [1] None None 3 None 7 None (-1) in
+  let s0 := mkSt 1 (1, 2) [1; 2] [(1, 1)] [1] None None 3 None 7 None (-1) 1%nat [] (-5) in
   let h := [(LExtend [4; 5; 6], FaultCall 2 ValueError); (DUpdate [(1, 2); (3, 4)], FaultCall 3 RuntimeError);
             (SetAd 2 3, FaultCall 1 AttributeError); (ReadF, FaultCall 0 TraitError);
-            (SetX 5, FaultHandler 1 ValueError); (LAppend 9, NoFault)] in
-  map (fun st => let '(_, _, fr, oa, _) := st in (fr, o_out oa, length (o_log oa))) (run2 d_vld d_getter 41 42 d_adapt 43 s0 s0 h)
+            (SetX 5, FaultHandler 1 ValueError); (LAppend 9, NoFault);
+            (ObsRemove, FaultCall 17 RuntimeError); (AddZ, NoFault); (SetZ 0 4, NoFault); (ObsRemove, NoFault);
+            (ObsRemove, NoFault); (SetZ 0 6, NoFault)] in
+  map (fun st => let '(_, _, fr, oa, _) := st in (fr, o_out oa, length (o_log oa))) (run2 d_vld d_getter 41 42 d_adapt 43 (d_fcalls 38 2) s0 s0 h)
   = [(true, Raise ValueError, 0%nat); (true, Raise RuntimeError, 0%nat); (true, Raise AttributeError, 0%nat);
-     (true, Raise TraitError, 0%nat); (true, Ok, 2%nat); (false, Ok, 2%nat)].
+     (true, Raise TraitError, 0%nat); (true, Ok, 2%nat); (false, Ok, 2%nat);
+     (true, Raise RuntimeError, 0%nat); (false, Ok, 0%nat); (false, Ok, 1%nat); (false, Ok, 0%nat);
+     (false, Raise NotifierNotFound, 0%nat); (false, Ok, 0%nat)].
 Proof. vm_compute. reflexivity. Qed.
